@@ -4,6 +4,7 @@ import (
 	"fmt"
 	"go/token"
 	"go/types"
+	"strings"
 
 	"golang.org/x/tools/go/ssa"
 
@@ -527,6 +528,38 @@ func checkRangesMergedFn(p *core.Prog, r *core.Report, name string) {
 		adjs = append(adjs, a)
 	})
 	if len(adjs) == 0 {
+		// ranges joined on an ordering test (end >= start, start <= end+1, …) instead of the equality: that also joins
+		// overlapping ranges or ranges across a hole
+		base := func(v ssa.Value) *types.Var {
+			v = core.SkipConv(v)
+			if bo, ok := v.(*ssa.BinOp); ok && (bo.Op == token.ADD || bo.Op == token.SUB) {
+				if _, isK := bo.Y.(*ssa.Const); isK {
+					v = core.SkipConv(bo.X)
+				}
+			}
+			f, _ := core.LoadedField(v)
+			return f
+		}
+		var ordered []string
+		core.InstrsDeep(fn, func(in ssa.Instruction) {
+			bo, ok := in.(*ssa.BinOp)
+			if !ok {
+				return
+			}
+			switch bo.Op {
+			case token.LSS, token.LEQ, token.GTR, token.GEQ:
+			default:
+				return
+			}
+			fx, fy := base(bo.X), base(bo.Y)
+			if (fx == endF && fy == startF) || (fx == startF && fy == endF) {
+				ordered = append(ordered, p.Pos(bo.Pos()))
+			}
+		})
+		if len(ordered) > 0 {
+			r.Check(false, "C13.R6", name+"/only-adjacent#1", "two ranges are merged only when the first ends exactly where the second starts", "the end of one range and the start of the next are compared for order only (no equality test): "+strings.Join(ordered, ", "), p.Pos(fn.Pos()))
+			return
+		}
 		core.Undecide("Ranges." + name + ": no adjacency comparison (end of one range vs start of the next)")
 	}
 	news := core.FindInstrs(fn, core.IsCallTo(p.FuncObj(pkgBlock, "NewRange")))
